@@ -30,14 +30,14 @@ def nsets(s):
 
 def key_closure(fl, mon, thorough, coll="tree", **kw):
     sets = KEY_SETS_THOROUGH if thorough else KEY_SETS_QUICK
-    return dict(flavour=fl, suite="key-closure", args=dict(mon=mon, sets=sets, coll=coll, max_states=3000000 if thorough else 400000), shards=nsets(sets), timeout=3000 if thorough else 120, **kw)
+    return dict(flavour=fl, suite="key-closure", args=dict(mon=mon, sets=sets, coll=coll, max_states=3000000 if thorough else 400000), shards=nsets(sets), timeout=3000 if thorough else 600, **kw)
 
 
 def ord_closure(fl, mon, thorough, sets_q=ORD_SETS_QUICK, sets_t=ORD_SETS_THOROUGH, **extra):
     sets = sets_t if thorough else sets_q
     a = dict(mon=mon, sets=sets, max_states=3000000 if thorough else 300000)
     a.update(extra)
-    return dict(flavour=fl, suite="ord-closure", args=a, shards=nsets(sets), timeout=3000 if thorough else 120)
+    return dict(flavour=fl, suite="ord-closure", args=a, shards=nsets(sets), timeout=3000 if thorough else 600)
 
 
 def _noexport(a):
@@ -53,7 +53,7 @@ def key_random(fl, mon, coll, budget, thorough, shards=16, **extra):
     a.update(extra)
     _noexport(a)
     mult = 1 if fl == "asan" else 3  # calibrated: ~15 s per worker on 16 cores in the quick tier
-    j = dict(flavour=fl, suite="key-random", args=a, shards=shards, budget=budget * mult * (8 if thorough else 1), timeout=3000 if thorough else 120)
+    j = dict(flavour=fl, suite="key-random", args=a, shards=shards, budget=budget * mult * (8 if thorough else 1), timeout=3000 if thorough else 600)
     if "seed_offset" in a:
         j["seed_offset"] = a.pop("seed_offset")
     if "mem_limit" in a:
@@ -65,7 +65,7 @@ def ord_random(fl, mon, coll, budget, thorough, shards=16, **extra):
     a = dict(mon=mon, coll=coll)
     a.update(extra)
     mult = 4 if fl == "asan" else 8
-    j = dict(flavour=fl, suite="ord-random", args=a, shards=shards, budget=budget * mult * (8 if thorough else 1), timeout=3000 if thorough else 120)
+    j = dict(flavour=fl, suite="ord-random", args=a, shards=shards, budget=budget * mult * (8 if thorough else 1), timeout=3000 if thorough else 600)
     if "seed_offset" in a:
         j["seed_offset"] = a.pop("seed_offset")
     return j
@@ -74,7 +74,7 @@ def ord_random(fl, mon, coll, budget, thorough, shards=16, **extra):
 def miri(suite, budget, shards, thorough, **args):
     if suite == "key-random":
         _noexport(args)
-    return dict(flavour="miri", suite=suite, args=args, shards=shards * (2 if thorough else 1), budget=budget * (6 if thorough else 1), timeout=3400 if thorough else 400, counts_for_exhaustive=False)
+    return dict(flavour="miri", suite=suite, args=args, shards=shards * (2 if thorough else 1), budget=budget * (6 if thorough else 1), timeout=3400 if thorough else 1200, counts_for_exhaustive=False)
 
 
 def exp_types(flavour, mon, kinds, coll, T, budget=3000, **extra):
@@ -114,7 +114,7 @@ def plan(prop, tier, seed):
     if p is None:
         return None
     p.setdefault("level", "exploration")
-    p.setdefault("timeout", 3000 if T else 120)
+    p.setdefault("timeout", 3000 if T else 600)
     return p
 
 
@@ -126,9 +126,9 @@ def _plan(prop, T):
                 key_closure("dbg", mon, T),
                 key_random("dbg", mon, "tree", 6400, T),
                 key_random("rel", mon, "tree", 9600, T),
-                dict(flavour="rel", suite="key-random", args=dict(mon="pred,empty", coll="tree", profile="marathon", noexport=1), shards=16, budget=32, timeout=3400 if T else 150, seed_offset=61),
+                dict(flavour="rel", suite="key-random", args=dict(mon="pred,empty", coll="tree", profile="marathon", noexport=1), shards=16, budget=32, timeout=3400 if T else 600, seed_offset=61),
                 dict(flavour="dbg", suite="sweep-line", args=dict(mon="pred,empty,phys", coll="tree"), shards=8, budget=160 * (6 if T else 1)),
-                dict(flavour="rel", suite="big", args=dict(max_n=4000000 if T else 400000, probes="kquery"), shards=16, timeout=3400 if T else 150),
+                dict(flavour="rel", suite="big", args=dict(max_n=4000000 if T else 400000, probes="kquery"), shards=16, timeout=3400 if T else 600),
                 miri("key-random", 128, 8, T, mon="pred,empty", coll="tree", **MIRI_KEY),
                 exp_types("dbg", "pred,empty", "key", "tree", T),
                 exp_types("rel", "pred,empty", "key", "tree", T),
@@ -148,8 +148,8 @@ def _plan(prop, T):
                 key_random("dbg", mon, "tree", 6400, T),
                 key_random("rel", mon, "tree", 9600, T),
                 key_random("dbg", mon, "tree", 1600, T, profile="lookup-sweeps", seed_offset=77),
-                dict(flavour="rel", suite="key-random", args=dict(mon="get", coll="tree", profile="marathon", noexport=1), shards=16, budget=16, timeout=3400 if T else 150, seed_offset=61),
-                dict(flavour="rel", suite="big", args=dict(max_n=4000000 if T else 400000, probes="kquery"), shards=16, timeout=3400 if T else 150),
+                dict(flavour="rel", suite="key-random", args=dict(mon="get", coll="tree", profile="marathon", noexport=1), shards=16, budget=16, timeout=3400 if T else 600, seed_offset=61),
+                dict(flavour="rel", suite="big", args=dict(max_n=4000000 if T else 400000, probes="kquery"), shards=16, timeout=3400 if T else 600),
                 miri("key-random", 128, 8, T, mon="get", coll="tree", **MIRI_KEY),
                 exp_types("dbg", "get", "key", "tree", T),
                 exp_types("rel", "get", "key", "tree", T),
@@ -169,7 +169,7 @@ def _plan(prop, T):
                 key_random("dbg", mon, "both", 6400, T),
                 key_random("rel", mon, "both", 9600, T),
                 key_random("asan", mon, "both", 3200, T),
-                dict(flavour="rel", suite="export-size", args=dict(max_n=4000000 if T else 300000), shards=16, mem_limit=(24 if T else 8) * GB, timeout=3400 if T else 150),
+                dict(flavour="rel", suite="export-size", args=dict(max_n=4000000 if T else 300000), shards=16, mem_limit=(24 if T else 8) * GB, timeout=3400 if T else 600),
                 miri("key-random", 96, 8, T, mon="export", coll="both", **MIRI_KEY),
                 exp_types("dbg", "export", "key", "both", T),
                 exp_types("rel", "export", "key", "both", T),
@@ -187,9 +187,9 @@ def _plan(prop, T):
                 ord_random("dbg", "structure,removal_stats", "maptree+settree+maptree-int+settree-int", 3200, T),
                 key_random("dbg", "structure", "tree", 3200, T),
                 ord_random("rel", "structure,removal_stats", "maptree+settree", 3200, T),
-                dict(flavour="rel", suite="key-random", args=dict(mon="structure", coll="tree", profile="marathon", noexport=1), shards=16, budget=16, timeout=3400 if T else 150, seed_offset=61),
-                dict(flavour="rel", suite="ord-random", args=dict(mon="structure", coll="maptree+settree", profile="marathon"), shards=16, budget=16 * 1, timeout=3400 if T else 150, seed_offset=62),
-                dict(flavour="rel", suite="big", args=dict(max_n=4000000 if T else 800000), shards=16, timeout=3400 if T else 150),
+                dict(flavour="rel", suite="key-random", args=dict(mon="structure", coll="tree", profile="marathon", noexport=1), shards=16, budget=16, timeout=3400 if T else 600, seed_offset=61),
+                dict(flavour="rel", suite="ord-random", args=dict(mon="structure", coll="maptree+settree", profile="marathon"), shards=16, budget=16 * 1, timeout=3400 if T else 600, seed_offset=62),
+                dict(flavour="rel", suite="big", args=dict(max_n=4000000 if T else 800000), shards=16, timeout=3400 if T else 600),
                 exp_types("dbg", "structure", "key", "tree", T),
             ],
             rule="evaluation = one hooked arena snapshot validated after a completed public call (links, strict key order, no red-red edge, equal black count, sentinel unlinked, height <= 2*log2(n+1)+1); distinct non-trivial = closed canonical shapes with >= 2 entries + distinct pre-removal configurations (children, colours of node/sibling/nephews/parent, side) + distinct (n, height) pairs of large trees",
@@ -234,9 +234,9 @@ def _plan(prop, T):
                 ord_closure("dbg", "lookup", T, MAP_SETS_QUICK if is_map else SET_SETS_QUICK, MAP_SETS_THOROUGH if is_map else SET_SETS_THOROUGH),
                 ord_random("dbg", "lookup", colls, 4800, T),
                 ord_random("rel", "lookup", colls, 4800, T),
-                dict(flavour="rel", suite="ord-random", args=dict(mon="lookup", coll=tree, profile="marathon"), shards=16, budget=16, timeout=3400 if T else 150, seed_offset=62),
+                dict(flavour="rel", suite="ord-random", args=dict(mon="lookup", coll=tree, profile="marathon"), shards=16, budget=16, timeout=3400 if T else 600, seed_offset=62),
                 ord_random("asan", "lookup", colls, 1600, T),
-                dict(flavour="rel", suite="big", args=dict(max_n=4000000 if T else 400000, probes="lookup", only_coll=tree), shards=16, timeout=3400 if T else 150),
+                dict(flavour="rel", suite="big", args=dict(max_n=4000000 if T else 400000, probes="lookup", only_coll=tree), shards=16, timeout=3400 if T else 600),
                 miri("ord-random", 64, 8, T, mon="lookup", coll=colls, **MIRI_ORD),
             ],
             rule="evaluation = one get_value / is_empty compared with a BTreeMap reference (full sweep over the key universe after every delete in small universes; stored keys and neighbours in large ones), values carry unique ids and heap payloads; distinct non-trivial = distinct (reference key set, operation) + closed canonical shapes with >= 2 entries",
@@ -250,9 +250,9 @@ def _plan(prop, T):
                 ord_closure("dbg", "handle", T),
                 ord_random("dbg", "handle", "maptree+settree+maptree-int+settree-int", 4800, T),
                 ord_random("rel", "handle", "maptree+settree", 4800, T),
-                dict(flavour="rel", suite="ord-random", args=dict(mon="handle", coll="maptree+settree", profile="marathon"), shards=16, budget=16 * 1, timeout=3400 if T else 150, seed_offset=62),
+                dict(flavour="rel", suite="ord-random", args=dict(mon="handle", coll="maptree+settree", profile="marathon"), shards=16, budget=16 * 1, timeout=3400 if T else 600, seed_offset=62),
                 ord_random("asan", "handle", "maptree+settree", 1600, T),
-                dict(flavour="rel", suite="big", args=dict(max_n=4000000 if T else 400000, probes="handle"), shards=16, timeout=3400 if T else 150),
+                dict(flavour="rel", suite="big", args=dict(max_n=4000000 if T else 400000, probes="handle"), shards=16, timeout=3400 if T else 600),
                 miri("ord-random", 64, 8, T, mon="handle", coll="maptree+settree", **MIRI_ORD),
             ],
             rule="evaluation = one first_index_less / first_index_less_by (3 monotone comparators) whose handle is dereferenced and compared with the reference predecessor, or one write / delete through such a handle followed by a lookup sweep; distinct non-trivial = distinct (reference key set, operation, probe) + closed canonical shapes",
@@ -267,8 +267,8 @@ def _plan(prop, T):
                 ord_random("dbg", "steps", "settree+settree-int", 4800, T),
                 ord_random("asan", "steps", "settree+settree-int", 1600, T),
                 ord_random("rel", "steps", "settree", 3200, T),
-                dict(flavour="rel", suite="ord-random", args=dict(mon="steps", coll="settree", profile="marathon"), shards=16, budget=16 * 1, timeout=3400 if T else 150, seed_offset=62),
-                dict(flavour="rel", suite="big", args=dict(max_n=4000000 if T else 400000, probes="steps"), shards=16, timeout=3400 if T else 150),
+                dict(flavour="rel", suite="ord-random", args=dict(mon="steps", coll="settree", profile="marathon"), shards=16, budget=16 * 1, timeout=3400 if T else 600, seed_offset=62),
+                dict(flavour="rel", suite="big", args=dict(max_n=4000000 if T else 400000, probes="steps"), shards=16, timeout=3400 if T else 600),
                 miri("ord-random", 64, 8, T, mon="steps", coll="settree+settree-int", **MIRI_ORD),
             ],
             rule="evaluation = one index_after / index_before from the handle of a stored key, dereferenced and compared with the next larger / smaller reference key (empty sentinel at the ends), or one full forward / backward walk compared with the reference order; distinct non-trivial = distinct (reference key set, operation, key) + closed canonical shapes",
@@ -293,18 +293,18 @@ def _plan(prop, T):
             ]
         jobs += [
             dict(flavour="rel", suite="export-size", args=dict(max_n=300000, nojudge=1), shards=8, mem_limit=8 * GB),
-            dict(flavour="rel", suite="big", args=dict(max_n=400000, nojudge=1), shards=8, timeout=3400 if T else 150),
-            dict(flavour="rel", suite="key-random", args=dict(mon="none", coll="both", profile="marathon", nojudge=1), shards=8, budget=8, timeout=3400 if T else 150),
-            dict(flavour="rel", suite="ord-random", args=dict(mon="none", coll="maptree+settree+maplist+setlist", profile="marathon", nojudge=1), shards=8, budget=8, timeout=3400 if T else 150),
+            dict(flavour="rel", suite="big", args=dict(max_n=400000, nojudge=1), shards=8, timeout=3400 if T else 600),
+            dict(flavour="rel", suite="key-random", args=dict(mon="none", coll="both", profile="marathon", nojudge=1), shards=8, budget=8, timeout=3400 if T else 600),
+            dict(flavour="rel", suite="ord-random", args=dict(mon="none", coll="maptree+settree+maplist+setlist", profile="marathon", nojudge=1), shards=8, budget=8, timeout=3400 if T else 600),
             dict(flavour="dbg", suite="seg-bulk", args=dict(mon="none", max_n=300000, nojudge=1), shards=8),
             dict(flavour="asan", suite="seg-bulk", args=dict(mon="none", max_n=140000, nojudge=1), shards=8),
-            dict(flavour="rel", suite="big", args=dict(max_n=400000, probes="clear", nojudge=1), shards=8, timeout=3400 if T else 150),
-            dict(flavour="rel", suite="big", args=dict(max_n=400000, probes="kquery", nojudge=1), shards=4, timeout=3400 if T else 150),
-            dict(flavour="rel", suite="big", args=dict(max_n=400000, probes="handle", nojudge=1), shards=4, timeout=3400 if T else 150),
-            dict(flavour="rel", suite="big", args=dict(max_n=400000, probes="steps", nojudge=1), shards=4, timeout=3400 if T else 150),
-            dict(flavour="rel", suite="big", args=dict(max_n=400000, probes="lookup", nojudge=1), shards=4, timeout=3400 if T else 150),
-            dict(flavour="rel", suite="big", args=dict(max_n=400000, probes="held", nojudge=1), shards=4, timeout=3400 if T else 150),
-            dict(flavour="dbg", suite="big", args=dict(max_n=270000, probes="clear", nojudge=1), shards=8, timeout=3400 if T else 150),
+            dict(flavour="rel", suite="big", args=dict(max_n=400000, probes="clear", nojudge=1), shards=8, timeout=3400 if T else 600),
+            dict(flavour="rel", suite="big", args=dict(max_n=400000, probes="kquery", nojudge=1), shards=4, timeout=3400 if T else 600),
+            dict(flavour="rel", suite="big", args=dict(max_n=400000, probes="handle", nojudge=1), shards=4, timeout=3400 if T else 600),
+            dict(flavour="rel", suite="big", args=dict(max_n=400000, probes="steps", nojudge=1), shards=4, timeout=3400 if T else 600),
+            dict(flavour="rel", suite="big", args=dict(max_n=400000, probes="lookup", nojudge=1), shards=4, timeout=3400 if T else 600),
+            dict(flavour="rel", suite="big", args=dict(max_n=400000, probes="held", nojudge=1), shards=4, timeout=3400 if T else 600),
+            dict(flavour="dbg", suite="big", args=dict(max_n=270000, probes="clear", nojudge=1), shards=8, timeout=3400 if T else 600),
             # valgrind memcheck over the optimised build (uninitialised values, invalid heap accesses, definite leaks)
             dict(flavour="vg", suite="key-random", args=dict(mon="none", coll="both", nojudge=1), shards=8, budget=2400 * (6 if T else 1), seed_offset=91),
             dict(flavour="vg", suite="ord-random", args=dict(mon="none", coll="maptree+settree+maplist+setlist+settree-int+maptree-int", nojudge=1), shards=8, budget=2400 * (6 if T else 1), seed_offset=91),
@@ -336,10 +336,10 @@ def _plan(prop, T):
                 ord_random("rel", "slots", "maptree+settree+maptree-int", 6400, T, profile="large-bounded-population,medium,clear-and-reuse", seed_offset=5),
                 key_random("dbg", "slots", "tree", 3200, T),
                 key_random("rel", "slots", "tree", 4800, T, profile="large,medium,insert-heavy-long-lived,clear-heavy", seed_offset=6),
-                dict(flavour="rel", suite="key-random", args=dict(mon="slots", coll="tree", profile="marathon", noexport=1), shards=16, budget=16, timeout=3400 if T else 150, seed_offset=61),
-                dict(flavour="rel", suite="ord-random", args=dict(mon="slots", coll="maptree+settree", profile="marathon"), shards=16, budget=16 * 1, timeout=3400 if T else 150, seed_offset=62),
-                dict(flavour="rel", suite="big", args=dict(max_n=1000000 if T else 100000), shards=16, timeout=3400 if T else 150),
-                dict(flavour="rel", suite="big", args=dict(max_n=4000000 if T else 400000, probes="clear"), shards=16, timeout=3400 if T else 150),
+                dict(flavour="rel", suite="key-random", args=dict(mon="slots", coll="tree", profile="marathon", noexport=1), shards=16, budget=16, timeout=3400 if T else 600, seed_offset=61),
+                dict(flavour="rel", suite="ord-random", args=dict(mon="slots", coll="maptree+settree", profile="marathon"), shards=16, budget=16 * 1, timeout=3400 if T else 600, seed_offset=62),
+                dict(flavour="rel", suite="big", args=dict(max_n=1000000 if T else 100000), shards=16, timeout=3400 if T else 600),
+                dict(flavour="rel", suite="big", args=dict(max_n=4000000 if T else 400000, probes="clear"), shards=16, timeout=3400 if T else 600),
             ],
             rule="evaluation = one hooked snapshot in which {sentinel} + reachable slots + free list must partition 0..buffer.len() (and everything is free after clear), with buffer.len() <= 8*(peak+1)+2*max(hint,8)+64 (any linear growth policy passes; the shipped one stays below 3*(peak+1)+max(hint,8)); distinct non-trivial = closed canonical shapes + distinct (reference contents, operation) of the random histories",
             require={"snapshots_checked": 200000, "op_clear": 1000, "max_buffer_len_seen": 2000, "states": 3000, "big_clears_checked": 100, "max_entries_built": 300000},
@@ -349,13 +349,13 @@ def _plan(prop, T):
     if prop == "C12":
         return dict(
             jobs=[
-                dict(flavour="dbg", suite="ord-closure", args=dict(mon="none", twin=1, sets=("maptree:9:8,settree:9:0,maplist:9:0,setlist:9:1,maptree:8:1,settree:8:9,maplist:10:8,setlist:10:0" if T else "maptree:7:8,settree:7:0,maplist:7:0,setlist:7:1,maptree:6:1,settree:6:9,maplist:8:8,setlist:8:0")), shards=8, timeout=3000 if T else 120),
-                dict(flavour="dbg", suite="key-closure", args=dict(mon="none", twin=1, coll="tree", sets=(KEY_SETS_THOROUGH if T else KEY_SETS_QUICK)), shards=nsets(KEY_SETS_THOROUGH if T else KEY_SETS_QUICK), timeout=3000 if T else 120),
-                dict(flavour="dbg", suite="key-closure", args=dict(mon="none", twin=1, coll="list", sets=(KEY_SETS_THOROUGH if T else KEY_SETS_QUICK)), shards=nsets(KEY_SETS_THOROUGH if T else KEY_SETS_QUICK), timeout=3000 if T else 120),
+                dict(flavour="dbg", suite="ord-closure", args=dict(mon="none", twin=1, sets=("maptree:9:8,settree:9:0,maplist:9:0,setlist:9:1,maptree:8:1,settree:8:9,maplist:10:8,setlist:10:0" if T else "maptree:7:8,settree:7:0,maplist:7:0,setlist:7:1,maptree:6:1,settree:6:9,maplist:8:8,setlist:8:0")), shards=8, timeout=3000 if T else 600),
+                dict(flavour="dbg", suite="key-closure", args=dict(mon="none", twin=1, coll="tree", sets=(KEY_SETS_THOROUGH if T else KEY_SETS_QUICK)), shards=nsets(KEY_SETS_THOROUGH if T else KEY_SETS_QUICK), timeout=3000 if T else 600),
+                dict(flavour="dbg", suite="key-closure", args=dict(mon="none", twin=1, coll="list", sets=(KEY_SETS_THOROUGH if T else KEY_SETS_QUICK)), shards=nsets(KEY_SETS_THOROUGH if T else KEY_SETS_QUICK), timeout=3000 if T else 600),
                 dict(flavour="dbg", suite="clear-twin", args=dict(), shards=16, budget=14000 * 10 * (8 if T else 1)),
                 dict(flavour="rel", suite="clear-twin", args=dict(), shards=16, budget=21000 * 10 * (8 if T else 1), seed_offset=9),
-                dict(flavour="rel", suite="big", args=dict(max_n=4000000 if T else 400000, probes="clear-obs"), shards=16, timeout=3400 if T else 150),
-                dict(flavour="rel", suite="seg-bulk", args=dict(mon="query", max_n=(6000000 if T else 300000)), shards=8, timeout=3400 if T else 120),
+                dict(flavour="rel", suite="big", args=dict(max_n=4000000 if T else 400000, probes="clear-obs"), shards=16, timeout=3400 if T else 600),
+                dict(flavour="rel", suite="seg-bulk", args=dict(mon="query", max_n=(6000000 if T else 300000)), shards=8, timeout=3400 if T else 600),
                 miri("clear-twin", 28, 7, T, small=1),
             ],
             rule="evaluation = one operation executed after clear() on the cleared instance and on a freshly constructed twin (other capacity hint) with identical observations required (values by id offset, handles by dereferenced entry), reference model alongside; distinct non-trivial = distinct (history, suffix position)",
@@ -369,8 +369,8 @@ def _plan(prop, T):
                 key_closure("dbg", "pred,get,export,empty", T, coll="list"),
                 key_random("dbg", "pred,get,export,empty", "list", 6400, T),
                 key_random("rel", "pred,get,export,empty", "list", 9600, T),
-                dict(flavour="rel", suite="key-random", args=dict(mon="pred,get,export,empty", coll="list", profile="marathon"), shards=16, budget=16, timeout=3400 if T else 150, seed_offset=61),
-                dict(flavour="rel", suite="ord-random", args=dict(mon="lookup,handle,steps", coll="maplist+setlist", profile="marathon"), shards=16, budget=16 * 1, timeout=3400 if T else 150, seed_offset=62),
+                dict(flavour="rel", suite="key-random", args=dict(mon="pred,get,export,empty", coll="list", profile="marathon"), shards=16, budget=16, timeout=3400 if T else 600, seed_offset=61),
+                dict(flavour="rel", suite="ord-random", args=dict(mon="lookup,handle,steps", coll="maplist+setlist", profile="marathon"), shards=16, budget=16 * 1, timeout=3400 if T else 600, seed_offset=62),
                 key_random("dbg", "pred,get,export,empty", "list", 3200, T, profile="stall-clock,clear-heavy,tiny-dense", seed_offset=11),
                 ord_closure("dbg", "lookup,handle,steps", T, LIST_SETS_QUICK, LIST_SETS_THOROUGH),
                 ord_random("dbg", "lookup,handle,steps", "maplist+setlist", 6400, T),
@@ -442,8 +442,8 @@ def _plan(prop, T):
                 ord_closure("dbg", "held", T, held_depth=3 if T else 2),
                 ord_random("dbg", "held", "maptree+settree+maptree-int+settree-int", 4800, T, profile="handles-held-across-inserts,small-mixed,medium,clear-and-reuse"),
                 ord_random("rel", "held", "maptree+settree", 4800, T, profile="handles-held-across-inserts,medium", seed_offset=3),
-                dict(flavour="rel", suite="ord-random", args=dict(mon="held", coll="maptree+settree", profile="marathon"), shards=16, budget=16 * 1, timeout=3400 if T else 150, seed_offset=62),
-                dict(flavour="rel", suite="big", args=dict(max_n=4000000 if T else 1600000, probes="held"), shards=16, timeout=3400 if T else 150),
+                dict(flavour="rel", suite="ord-random", args=dict(mon="held", coll="maptree+settree", profile="marathon"), shards=16, budget=16 * 1, timeout=3400 if T else 600, seed_offset=62),
+                dict(flavour="rel", suite="big", args=dict(max_n=4000000 if T else 1600000, probes="held"), shards=16, timeout=3400 if T else 600),
                 miri("ord-random", 64, 8, T, mon="held", coll="maptree+settree", profile="handles-held-across-inserts,small-mixed", maxlen=40),
                 # "any number of subsequent insertions", read literally: also insertions of keys that are already stored
                 dict(flavour="dbg", suite="dup-held", args=dict(), shards=16, budget=48000 * (8 if T else 1), seed_offset=5),
@@ -459,9 +459,9 @@ def _plan(prop, T):
         return dict(
             level="fault_enumeration",
             jobs=[
-                dict(flavour="dbg", suite="ord-closure", args=dict(mon="lookup,handle,steps", fault=1, sets=("maptree:7:8,settree:7:0,maplist:7:0,setlist:7:1,maptree:6:1,settree:6:9,maplist:8:8,setlist:8:0" if T else "maptree:6:8,settree:6:0,maplist:6:0,setlist:6:1,maptree:5:1,settree:5:9,maplist:7:8,setlist:7:0")), shards=8, timeout=3000 if T else 120),
-                dict(flavour="dbg", suite="key-closure", args=dict(mon="pred,get,export", fault=1, coll="tree", sets=("4:3:1,5:2:8,4:2:0,3:4:9" if T else "4:3:1,4:2:8,3:3:0,3:2:9")), shards=4, timeout=3000 if T else 120),
-                dict(flavour="dbg", suite="key-closure", args=dict(mon="pred,get,export", fault=1, coll="list", sets=("4:3:1,5:2:8,4:2:0,3:4:9" if T else "4:3:1,4:2:8,3:3:0,3:2:9")), shards=4, timeout=3000 if T else 120),
+                dict(flavour="dbg", suite="ord-closure", args=dict(mon="lookup,handle,steps", fault=1, sets=("maptree:7:8,settree:7:0,maplist:7:0,setlist:7:1,maptree:6:1,settree:6:9,maplist:8:8,setlist:8:0" if T else "maptree:6:8,settree:6:0,maplist:6:0,setlist:6:1,maptree:5:1,settree:5:9,maplist:7:8,setlist:7:0")), shards=8, timeout=3000 if T else 600),
+                dict(flavour="dbg", suite="key-closure", args=dict(mon="pred,get,export", fault=1, coll="tree", sets=("4:3:1,5:2:8,4:2:0,3:4:9" if T else "4:3:1,4:2:8,3:3:0,3:2:9")), shards=4, timeout=3000 if T else 600),
+                dict(flavour="dbg", suite="key-closure", args=dict(mon="pred,get,export", fault=1, coll="list", sets=("4:3:1,5:2:8,4:2:0,3:4:9" if T else "4:3:1,4:2:8,3:3:0,3:2:9")), shards=4, timeout=3000 if T else 600),
                 dict(flavour="dbg", suite="fault", args=dict(), shards=16, budget=2800 * 4 * (8 if T else 1)),
                 dict(flavour="rel", suite="fault", args=dict(), shards=16, budget=2800 * 4 * (8 if T else 1), seed_offset=13),
                 dict(flavour="asan", suite="fault", args=dict(), shards=8, budget=700 * 2 * (8 if T else 1), seed_offset=14),
@@ -476,10 +476,10 @@ def _plan(prop, T):
     if prop == "C19":
         return dict(
             jobs=[
-                dict(flavour="rel", suite="export-size", args=dict(max_n=4000000 if T else 300000), shards=16, mem_limit=(24 if T else 8) * GB, timeout=3400 if T else 150),
+                dict(flavour="rel", suite="export-size", args=dict(max_n=4000000 if T else 300000), shards=16, mem_limit=(24 if T else 8) * GB, timeout=3400 if T else 600),
                 key_closure("dbg", "capacity", T),
                 key_random("rel", "capacity", "tree", 4800, T, mem_limit=8 * GB),
-                dict(flavour="rel", suite="key-random", args=dict(mon="capacity", coll="tree", profile="marathon"), shards=16, budget=16, timeout=3400 if T else 150, seed_offset=61, mem_limit=8 * GB),
+                dict(flavour="rel", suite="key-random", args=dict(mon="capacity", coll="tree", profile="marathon"), shards=16, budget=16, timeout=3400 if T else 600, seed_offset=61, mem_limit=8 * GB),
             ],
             rule="evaluation = one into_ordered_vec whose returned capacity must be <= 4n+64 (n = entries physically stored) and whose largest single allocation request (counting allocator) must be <= (4n+64)*16 bytes, under an address-space limit; distinct non-trivial = distinct (n, capacity, insertion order, expired share)",
             require={"max_entries_exported": 250000, "op_export": 3000},
@@ -494,7 +494,7 @@ def _plan(prop, T):
                 key_closure("dbg", mon, T, coll="list", seed_offset=41),
                 key_random("dbg", mon, "both", 6400, T),
                 key_random("rel", mon, "both", 6400, T),
-                dict(flavour="rel", suite="key-random", args=dict(mon="cblive", coll="both", profile="marathon", noexport=1), shards=16, budget=16, timeout=3400 if T else 150, seed_offset=61),
+                dict(flavour="rel", suite="key-random", args=dict(mon="cblive", coll="both", profile="marathon", noexport=1), shards=16, budget=16, timeout=3400 if T else 600, seed_offset=61),
                 dict(flavour="dbg", suite="sweep-line", args=dict(mon="cblive", coll="both"), shards=8, budget=240 * (6 if T else 1)),
                 miri("key-random", 64, 4, T, mon="cblive", coll="both", **MIRI_KEY),
             ],
